@@ -49,6 +49,9 @@ def envelope_for(seed, index, vendor, cls, rng, d, sign=False, with_cid=True, bi
         desc["SUIT_Envelope_Tagged"]["suit-manifest"] = m
     if big:
         m["suit-reference-uri"] = "u" * 6000
+    if rng.random() < 0.3:
+        blk = {"CoseSign1Tagged": {"protected": {"suit-cose-algorithm-id": "cose-alg-es-256"}, "unprotected": {}, "payload": None, "signature": "ab" * 64}}
+        desc["SUIT_Envelope_Tagged"] = {"suit-delegation": [[blk]], **{k: v for k, v in desc["SUIT_Envelope_Tagged"].items() if k != "suit-delegation"}}
     c = suitcases.run_impl_create(desc, files)
     if "ok" not in c:
         return None
@@ -144,6 +147,10 @@ def check_slots(drv, images, layout, base, inputs, roles_expected, problems):
                 problems.append(f"{role}: manifest or authentication wrapper of the stored envelope differs from the input")
             if set(si) - {1, 2, 3, 17}:
                 problems.append(f"{role}: unexpected members {sorted(set(si))}")
+            kept = {k: v for k, v in ii.items() if k not in (15, 16, 18, 20, 23)}
+            if si != kept:
+                problems.append(f"{role}: the stored envelope is not the input without its severable members and payloads: members "
+                                f"{sorted(set(kept) - set(si))} missing, {sorted(k for k in kept if k in si and si[k] != kept[k])} changed")
         extra = set(mem) - covered
         if extra:
             problems.append(f"{dom}: data outside the slots of this domain's envelopes ({len(extra)} bytes)")
@@ -226,6 +233,20 @@ def work(args):
                 return None
             inputs.append((b, v, c))
             expect_fail = "duplicate role"
+        elif mode == "two-classes-one-role":
+            # the build configuration gives a role that has a default class to a custom class as well: both classes resolve to that role
+            cand = [r for r in chosen if r in CONFIGURABLE and r in defaults and names[r] == defaults[r]]
+            if not cand:
+                return None
+            role = cand[0]
+            v2, c2 = "custom.example", f"custom_{role.lower()}"
+            extra_lines = [f'SB_CONFIG_SUIT_MPI_{CONFIGURABLE[role]}_VENDOR_NAME="{v2}"', f'SB_CONFIG_SUIT_MPI_{CONFIGURABLE[role]}_CLASS_NAME="{c2}"']
+            kconfig = (kconfig or "") + "\n".join(extra_lines) + "\n"
+            b = envelope_for(seed, index * 20 + 14, v2, c2, rng, d)
+            if b is None:
+                return None
+            inputs.append((b, v2, c2))
+            expect_fail = "two envelopes of different classes for one role"
         elif mode == "no-component-id":
             v, c = names[chosen[0]]
             b = envelope_for(seed, index * 20 + 17, v, c, rng, d, with_cid=False)
@@ -290,7 +311,7 @@ def run(tier: str, seed: int) -> int:
         return finish(res, st, RULE, NOTE)
     signing.keys_dir()
     n = 170 if tier == "quick" else 5000
-    modes = ["valid"] * 6 + ["unknown-class", "duplicate-role", "no-component-id", "oversize"]
+    modes = ["valid"] * 6 + ["unknown-class", "duplicate-role", "no-component-id", "oversize", "two-classes-one-role"]
     jobs = [(seed, i, modes[i % len(modes)]) for i in range(n)]
     outs = common.pmap(work, jobs, chunk=2)
     for job, o in zip(jobs, outs):
